@@ -62,6 +62,7 @@ func readCase() *Case {
 	if err := json.Unmarshal(b, &c); err != nil {
 		fatal(err.Error())
 	}
+	gcSpray = c.GCSpray
 	return &c
 }
 
@@ -87,6 +88,40 @@ func hookInstall() {
 		instMu.Lock()
 		installs = append(installs, in)
 		instMu.Unlock()
+		if gcSpray != 0 {
+			spray(len(prog))
+		}
+	}
+}
+
+// gcSpray (from the case): a garbage collection at the last observable point before the
+// seccomp system call, followed by allocations of the program's size class.
+var (
+	gcSpray   int
+	sprayKeep [][]syscall.SockFilter
+)
+
+func spray(n int) {
+	runtime.GC()
+	runtime.GC()
+	if gcSpray == 3 || n == 0 {
+		return
+	}
+	count := (48 << 20) / (n * 8)
+	if count > 200000 {
+		count = 200000
+	}
+	if count < 256 {
+		count = 256
+	}
+	for i := 0; i < count; i++ {
+		s := make([]syscall.SockFilter, n)
+		if gcSpray == 1 {
+			for j := range s {
+				s[j] = syscall.SockFilter{Code: 0x06, K: 0x7fff0000}
+			}
+		}
+		sprayKeep = append(sprayKeep, s)
 	}
 }
 
